@@ -14,6 +14,12 @@ func Configure(id string) {
 	default:
 		drv.AllowWillEdit = false
 	}
+	switch id {
+	case "C10", "C11", "c11-child", "C13":
+		drv.WillExtras = true
+	default:
+		drv.WillExtras = false
+	}
 }
 
 // extra holds scenarios that exist only in the instrumented build (tag verifinstr).
